@@ -13,6 +13,7 @@
 //        H<p>   on a helper thread: open a GlobalContext, wire program p inside it, run it to the end, copy its global state back
 //               into that context and KEEP the context open (on that thread) until the end of the history; returns when the
 //               helper has reached that point.  What other threads build and run meanwhile must not see that context.
+//        N<k>   wire program k into ONE open wiring and build it twice with Wiring::snapshot(): two builders (consecutive indexes)
 //        G      open a GlobalContext on the main thread: the builders wired from here on take its state as their seed,
 //               and every executor copies its graph's global state back into it when its run is over (what the library's
 //               own testing harness does) - only used in histories whose runs follow one another
@@ -140,6 +141,27 @@ int main()
                     {
                         J("build").i("b", static_cast<long>(builders.size())).i("p", arg).emit();
                         builders.emplace_back(arg, wire_scenario(*progs.at(arg)->scn));
+                    }
+                    else if (op == 'N')
+                    {
+                        // the interactive flow: ONE top-level wiring, built twice with Wiring::snapshot() - two builders from
+                        // the same wiring (consecutive builder indexes); the wiring stays open in between
+                        Scenario &scn = *progs.at(arg)->scn;
+                        g_scn         = &scn;
+                        try
+                        {
+                            Wiring w{WiringKind::TopLevel, WiringOptions{}};
+                            RootG::compose(w);
+                            for (int rep = 0; rep < 2; ++rep)
+                            {
+                                J("build").i("b", static_cast<long>(builders.size())).i("p", arg).i("snapshot", rep + 1).emit();
+                                builders.emplace_back(arg, std::optional<GraphBuilder>{w.snapshot()});
+                            }
+                        }
+                        catch (const std::exception &ex)
+                        {
+                            J("harnessfail").str("msg", std::string{"snapshot of an open wiring failed: "} + ex.what()).emit();
+                        }
                     }
                     else if (op == 'X' || op == 'Y')
                     {
